@@ -16,7 +16,7 @@ FAULT_FOCUS = {
     "C05": [],
     "C09": ["pool_range_asg", "pool_range_sus", "pool_range_asg"],
     "C10": ["sus_not_boundary", "sus_not_boundary", "sus_suspending", "sus_suspended", "sus_unknown",
-            "sus_other_pool", "sus_twice"],
+            "sus_other_pool", "sus_twice", "oversell_during_writeout", "oversell_during_writeout"],
     "C11": [],
 }
 
@@ -141,4 +141,7 @@ def gen(r, focus, tier="quick"):
         "fault": fault,
         "fault_tick": r.randint(0, max(1, int(T * 0.7))),
     }
-    return {"kind": "ex", "focus": focus, "cfg": cfg, "pipes": pipes, "knobs": knobs}
+    scn = {"kind": "ex", "focus": focus, "cfg": cfg, "pipes": pipes, "knobs": knobs}
+    if r.random() < 0.15:
+        scn["decoy_at"] = r.randint(1, max(1, T // 2))
+    return scn
